@@ -14,25 +14,25 @@ done = {}
 for n in notes:
     done.setdefault(n["property"], []).append(f"[{n.get('kind','')[:80]}] {n.get('summary','')[:220]}".replace("\n", " "))
 FOCUS = {
-    "C01": "ProgressBar.__rich_console__ (progress_bar.py), Columns.__rich_console__ (columns.py), Lines.justify (containers.py), Text.truncate / Text.align (text.py), Bar.__rich_console__",
-    "C02": "divide_line / words (_wrap.py), Lines.justify (containers.py), Text.wrap, Text.pad_left / pad / pad_right, chop_cells (cells.py)",
-    "C03": "Console._render_buffer, Segment.remove_color / strip_styles (segment.py), Color.downgrade / get_ansi_codes (color.py), Style._make_ansi_codes",
+    "C01": "ProgressBar.__rich_console__ (progress_bar.py), Columns.__rich_console__ (columns.py), Lines.justify (containers.py), Text.truncate / Text.align (text.py), Bar.__rich_console__, Table._calculate_column_widths (the reduction stage)",
+    "C02": "divide_line / words (_wrap.py), Lines.justify (containers.py), Text.wrap, Text.pad_left / pad / pad_right, chop_cells (cells.py), Text.pad_right",
+    "C03": "Console._render_buffer, Segment.remove_color / strip_styles (segment.py), Color.downgrade / get_ansi_codes (color.py), Style._make_ansi_codes, Style.without_color",
     "C04": "markup._parse, markup.render (the tag stack handling), markup.escape, Style.normalize",
     "C05": "Text.__getitem__, Text.append / append_text, Text.stylize, Text.pad / pad_left, Text.right_crop, strip_control_codes (control.py), Text.with_indent_guides",
-    "C06": "Style.__add__, Style.__eq__ / __hash__, Style.normalize, Style.parse, Style.__str__, Style.update_link / copy / without_color",
-    "C07": "Table._calculate_column_widths, Table._measure_column, Table._render (the separator / leading rows and the per-cell options), Table._collapse_widths, ratio_distribute / ratio_reduce (_ratio.py)",
+    "C06": "Style.__add__, Style.__eq__ / __hash__, Style.normalize, Style.parse, Style.__str__, Style.update_link / copy / without_color, Color.parse (color.py; the rgb() branch and how the colour is named)",
+    "C07": "Table._calculate_column_widths, Table._measure_column, Table._render (the separator / leading rows and the per-cell options), Table._collapse_widths, ratio_distribute / ratio_reduce (_ratio.py), ratio_distribute (the per-slot minimum), Table._render (where new lines are emitted)",
     "C08": "ProgressBar.__rich_console__ and _render_pulse, Panel.__rich_console__, Padding.__rich_console__, Align.__rich_console__, Segment.adjust_line_length / set_shape",
-    "C09": "Pretty.__rich_measure__ (pretty.py), Text.__rich_measure__, Table.__rich_measure__, Measurement.get (measure.py), Padding / Panel / Constrain __rich_measure__",
-    "C10": "Live.start / stop / update / refresh / process_renderables (live.py), Progress.start / stop / update (progress.py), Console.print / Console.log (console.py, the part before rendering), FileProxy.write / flush (file_proxy.py), LiveRender",
-    "C11": "Console._check_buffer / _render_buffer / end_capture / capture, Live.stop / start (the refresh-thread handling), Progress.stop, _RefreshThread",
+    "C09": "Pretty.__rich_measure__ (pretty.py), Text.__rich_measure__, Table.__rich_measure__, Measurement.get (measure.py), Padding / Panel / Constrain __rich_measure__, Bar.__rich_measure__ / __rich_console__",
+    "C10": "Live.start / stop / update / refresh / process_renderables (live.py), Progress.start / stop / update (progress.py), Console.print / Console.log (console.py, the part before rendering), FileProxy.write / flush (file_proxy.py), LiveRender, Live.stop / Progress.stop (the final new line)",
+    "C11": "Console._check_buffer / _render_buffer / end_capture / capture, Live.stop / start (the refresh-thread handling), Progress.stop, _RefreshThread, Live.refresh / Progress.refresh",
     "C12": "Progress.update / advance / reset / add_task / track, Task.percentage / speed / time_remaining / finished, _TrackThread",
     "C13": "cells._get_codepoint_cell_size (the table search), get_character_cell_size, cell_len, set_cell_size, chop_cells, Segment.split_lines / split_and_crop_lines / adjust_line_length",
-    "C14": "AnsiDecoder.decode_line (the SGR parameter parsing), Color.parse, Style.parse, Columns.__rich_console__ (column count search), Table._calculate_column_widths, Pretty.__rich_measure__, Text.__rich_measure__",
-    "C15": "Console.export_text / export_html / save_text, Console._check_buffer / _render_buffer, Console.capture / end_capture, Segment.simplify / filter_control",
-    "C16": "pretty.traverse (incl. the mapping / sequence branches and to_repr), Node.iter_tokens / check_length / render, _Line.expand / check_length, the _BRACES table",
-    "C17": "Syntax.__rich_console__ (the line splitting / range slicing / numbering part), Syntax.highlight (tokens_to_spans), Traceback.extract (the walk_tb loop), Traceback._render_stack",
+    "C14": "AnsiDecoder.decode_line (the SGR parameter parsing), Color.parse, Style.parse, Columns.__rich_console__ (column count search), Table._calculate_column_widths, Pretty.__rich_measure__, Text.__rich_measure__, AnsiDecoder.decode_line (extended colours)",
+    "C15": "Console.export_text / export_html / save_text, Console._check_buffer / _render_buffer, Console.capture / end_capture, Segment.simplify / filter_control, Console.save_html / save_text, Segment.apply_style / strip_links",
+    "C16": "pretty.traverse (incl. the mapping / sequence branches and to_repr), Node.iter_tokens / check_length / render, _Line.expand / check_length, the _BRACES table, traverse (the max_length / islice handling)",
+    "C17": "Syntax.__rich_console__ (the line splitting / range slicing / numbering part), Syntax.highlight (tokens_to_spans), Traceback.extract (the walk_tb loop), Traceback._render_stack, Syntax.__rich_console__ (the indent-guides pass), Traceback._guess_lexer",
     "C18": "Palette.match (palette.py, the distance function), Color.downgrade, Color.get_ansi_codes, Color.from_ansi / from_rgb / parse",
-    "C19": "AnsiDecoder.decode / decode_line, _ansi_tokenize, FileProxy.write / flush, Live._enable_redirect_io / Progress._enable_redirect_io and their _disable counterparts",
+    "C19": "AnsiDecoder.decode / decode_line, _ansi_tokenize, FileProxy.write / flush, Live._enable_redirect_io / Progress._enable_redirect_io and their _disable counterparts, AnsiDecoder.decode_line (carriage returns, empty SGR), re_ansi",
     "C20": "Theme.from_file / read / config (theme.py), ThemeStack.push_theme / pop_theme, Console.get_style / push_theme / pop_theme / use_theme, ThemeContext",
 }
 HEAD = open("/tmp/benign_out2/full_01.txt").read().split("Your worktree:")[0]
